@@ -354,7 +354,7 @@ static void c08SchedCase(Rng &rng, CaseResult &r, bool light) {
 
 int main(int argc, char **argv) {
   std::vector<vf::Part> parts;
-  parts.push_back({"c06.global", [](uint64_t, Rng &rng, CaseResult &r) { c06Case(rng, r); }, 60});
+  parts.push_back({"c06.global", [](uint64_t, Rng &rng, CaseResult &r) { c06Case(rng, r); }, 120});
   parts.push_back({"c08.pure", [](uint64_t idx, Rng &rng, CaseResult &r) { c08PureCase(idx, rng, r); }, 120});
   parts.push_back({"c08.sched", [](uint64_t, Rng &rng, CaseResult &r) { c08SchedCase(rng, r, false); }, 300});
   parts.push_back({"c08.sched.light", [](uint64_t, Rng &rng, CaseResult &r) { c08SchedCase(rng, r, true); }, 300});
